@@ -12,7 +12,8 @@ RULE = ('70% E1 histories (pure scheduler API) and 30% E2 histories (Master + Zk
         'and with the affinity counters of every node. Non-trivial = a '
         'finite limit at a non-server level, >=2 placed instances of that '
         'affinity and >=1 eviction in the history. distinct = canonical JSON.'
-        " Since rounds 5-7: counters are also compared with the instances' own view (how many instances say they sit below a node); dense (tight, frequent) limits; allocation moves; buckets leaving the cell; bounce + re-parent into a rack at its limit; two same-shape arrivals placed through eviction in one cycle on a filled cell.")
+        " Since rounds 5-7: counters are also compared with the instances' own view (how many instances say they sit below a node); dense (tight, frequent) limits; allocation moves; buckets leaving the cell; bounce + re-parent into a rack at its limit; two same-shape arrivals placed through eviction in one cycle on a filled cell."
+        ' Since round 8: leases, renewals and clock advances in the limit histories (renewal-failure restore path).')
 ASSUMPTIONS = [
     'instances of one affinity share their limits (drawn per affinity name)',
     'virtual clock replaces treadmill.scheduler.time',
